@@ -895,6 +895,8 @@ class DM(Mat):
         elif len(args) == 2 and isinstance(args[0], Sparsity):
             sp, v = args
             v = _coerce(v) if not isinstance(v, (list, tuple)) else DM(list(v))
+            if v.numel() not in (1, sp.numel()):
+                raise RuntimeError("DM(Sparsity, values): %d values for %d nonzeros" % (v.numel(), sp.numel()))
             self.rows, self.cols = sp.rows, sp.cols
             self.e = list(v.e) if v.numel() == sp.numel() else [v.e[0]] * sp.numel()
         elif len(args) == 2:
@@ -967,8 +969,13 @@ class MX(Mat):
             else:
                 self.rows, self.cols, self.e = 1, 1, [entry(a)]
         elif len(args) == 2 and isinstance(args[0], Sparsity):
-            d = DM(*args)
-            self.rows, self.cols, self.e = d.rows, d.cols, d.e
+            # MX(sparsity, nonzeros): the (dense) pattern filled column by column; a single value is repeated
+            sp, v = args
+            v = _coerce(v) if not isinstance(v, (list, tuple)) else MX(list(v))
+            if v.numel() not in (1, sp.numel()):
+                raise RuntimeError("MX(Sparsity, values): %d values for %d nonzeros" % (v.numel(), sp.numel()))
+            self.rows, self.cols = sp.rows, sp.cols
+            self.e = list(v.e) if v.numel() == sp.numel() else [v.e[0]] * sp.numel()
         elif len(args) == 2:
             self.rows, self.cols = int(unwrap_int(args[0])), int(unwrap_int(args[1]))
             self.e = [0.0] * (self.rows * self.cols)
